@@ -599,3 +599,420 @@ Proof.
       unfold a_id, a_name in *; simpl. repeat split; congruence.
     + exists x. split; [apply in_or_app; left; apply a_del_in; split; auto; congruence | auto].
 Qed.
+
+(* ---------- Go maps ---------- *)
+Lemma mget_in : forall k (m : cmap) v, mget k m = Some v -> In (k, v) m.
+Proof.
+  intros k m; induction m as [|[k' v'] m IH]; simpl; intros v H; [discriminate|].
+  destruct (k' =? k) eqn:E; [apply N.eqb_eq in E; subst; inversion H; auto | auto].
+Qed.
+
+Lemma mget_none : forall k (m : cmap), mget k m = None -> ~ In k (map fst m).
+Proof.
+  intros k m; induction m as [|[k' v'] m IH]; simpl; intros H; [tauto|].
+  destruct (k' =? k) eqn:E; [discriminate|]. apply N.eqb_neq in E. intros [H1|H1]; [congruence | apply IH; auto].
+Qed.
+
+Lemma in_mget : forall k v (m : cmap), NoDup (map fst m) -> In (k, v) m -> mget k m = Some v.
+Proof.
+  intros k v m; induction m as [|[k' v'] m IH]; simpl; intros Hnd Hin; [destruct Hin|].
+  inversion Hnd as [|? ? Hn Hd]; subst. destruct Hin as [Hin|Hin].
+  - inversion Hin; subst. rewrite N.eqb_refl. reflexivity.
+  - destruct (k' =? k) eqn:E; [|auto]. apply N.eqb_eq in E; subst.
+    exfalso; apply Hn. apply in_map_iff. exists (k, v); auto.
+Qed.
+
+Lemma mdel_in : forall k (m : cmap) p, In p (mdel k m) <-> In p m /\ fst p <> k.
+Proof. intros k m p. unfold mdel. rewrite filter_In, negb_true_iff, N.eqb_neq. tauto. Qed.
+
+Lemma mdel_keys : forall k (m : cmap) x, In x (map fst (mdel k m)) <-> In x (map fst m) /\ x <> k.
+Proof.
+  intros k m x. rewrite !in_map_iff. split.
+  - intros [p [<- Hp]]. apply mdel_in in Hp. split; [exists p; tauto | tauto].
+  - intros [[p [<- Hp]] Hne]. exists p. split; auto. apply mdel_in; auto.
+Qed.
+
+Lemma mdel_nodup : forall k (m : cmap), NoDup (map fst m) -> NoDup (map fst (mdel k m)).
+Proof. intros. unfold mdel. apply NoDup_map_filter; auto. Qed.
+
+Lemma mset_fresh : forall k v (m : cmap), mget k m = None -> mset k v m = m ++ [(k, v)].
+Proof.
+  intros k v m; induction m as [|[k' v'] m IH]; simpl; intros H; [reflexivity|].
+  destruct (k' =? k); [discriminate|]. rewrite IH; auto.
+Qed.
+
+Lemma mset_present : forall k v (m : cmap) old, NoDup (map fst m) -> mget k m = Some old ->
+  map fst (mset k v m) = map fst m /\
+  (forall p, In p (mset k v m) <-> p = (k, v) \/ (In p m /\ fst p <> k)).
+Proof.
+  intros k v m old; induction m as [|[k' v'] m IH]; simpl; intros Hnd H; [discriminate|].
+  inversion Hnd as [|? ? Hn Hd]; subst.
+  destruct (k' =? k) eqn:E.
+  - apply N.eqb_eq in E; subst k'. simpl. split; [reflexivity|]. intros p. split.
+    + intros [<-|Hp]; [left; reflexivity|]. right. split; [right; exact Hp|].
+      intros Hc. apply Hn. rewrite <- Hc. apply in_map; exact Hp.
+    + intros [->|[[<-|Hp] Hne]]; [left; reflexivity | simpl in Hne; congruence | right; exact Hp].
+  - apply N.eqb_neq in E. destruct (IH Hd H) as [IH1 IH2]. simpl. split; [rewrite IH1; reflexivity|].
+    intros p. rewrite IH2. split.
+    + intros [<-|[->|[Hp Hne]]]; [right; split; [left; reflexivity | simpl; exact E] | left; reflexivity | right; split; [right; exact Hp | exact Hne]].
+    + intros [->|[[<-|Hp] Hne]]; [right; left; reflexivity | left; reflexivity | right; right; split; auto].
+Qed.
+
+Lemma has_name_spec : forall n (m : cmap), has_name n m = true <-> exists p, In p m /\ i_name (snd p) = n.
+Proof.
+  intros n m. unfold has_name. rewrite existsb_exists. split; intros [p [H1 H2]]; exists p; split; auto; apply String.eqb_eq; auto.
+Qed.
+
+Lemma a_has_name_spec : forall n es, a_has_name n es = true <-> exists e, In e es /\ a_name e = n.
+Proof.
+  intros n es. unfold a_has_name. rewrite existsb_exists. split; intros [p [H1 H2]]; exists p; split; auto; apply String.eqb_eq; auto.
+Qed.
+
+(* ---------- refinement ---------- *)
+Definition keys_ok (m : cmap) : Prop := Forall (fun p => i_id (snd p) = fst p) m.
+Definition stag (p : N * info) : aentry := {| a_info := snd p; a_ready := false |}.
+Definition rdy (p : N * info) : aentry := {| a_info := snd p; a_ready := true |}.
+
+Lemma abs_entries_eq : forall c, abs_entries c = map stag (staging c) ++ map rdy (services c).
+Proof. reflexivity. Qed.
+
+Record Rel (c : cstate) (a : astate) : Prop := {
+  r_nd_s : NoDup (map fst (staging c));
+  r_nd_v : NoDup (map fst (services c));
+  r_disj : forall k, In k (map fst (staging c)) -> ~ In k (map fst (services c));
+  r_keys_s : keys_ok (staging c);
+  r_keys_v : keys_ok (services c);
+  r_in : forall e, In e (a_entries a) <-> In e (abs_entries c);
+  r_next : a_next a = lastID c }.
+
+Lemma Rel_init : Rel cinit ainit.
+Proof. constructor; simpl; try constructor; try tauto. Qed.
+
+Lemma in_abs : forall c e, In e (abs_entries c) <->
+  (exists p, In p (staging c) /\ e = stag p) \/ (exists p, In p (services c) /\ e = rdy p).
+Proof.
+  intros c e. rewrite abs_entries_eq, in_app_iff, !in_map_iff.
+  split; (intros [[p [H1 H2]]|[p [H1 H2]]]; [left|right]; exists p; auto).
+Qed.
+
+Section Refine.
+  Variables (c : cstate) (a : astate).
+  Hypothesis HR : Rel c a.
+  Hypothesis HA : AInv a.
+
+  Lemma rel_staging_entry : forall k i, In (k, i) (staging c) ->
+    In (stag (k, i)) (a_entries a) /\ i_id i = k.
+  Proof.
+    intros k i H. split.
+    - apply (r_in _ _ HR). apply in_abs. left. exists (k, i); auto.
+    - pose proof (r_keys_s _ _ HR) as K. unfold keys_ok in K. rewrite Forall_forall in K. apply (K _ H).
+  Qed.
+
+  Lemma rel_services_entry : forall k i, In (k, i) (services c) ->
+    In (rdy (k, i)) (a_entries a) /\ i_id i = k.
+  Proof.
+    intros k i H. split.
+    - apply (r_in _ _ HR). apply in_abs. right. exists (k, i); auto.
+    - pose proof (r_keys_v _ _ HR) as K. unfold keys_ok in K. rewrite Forall_forall in K. apply (K _ H).
+  Qed.
+
+  Lemma rel_find_services : forall id i, mget id (services c) = Some i ->
+    a_find id (a_entries a) = Some {| a_info := i; a_ready := true |}.
+  Proof.
+    intros id i H. apply mget_in in H. apply rel_services_entry in H. destruct H as [H1 H2].
+    apply a_find_in; [apply (ai_ids _ HA) | exact H1 | exact H2].
+  Qed.
+
+  Lemma rel_find_staging : forall id i, mget id (staging c) = Some i ->
+    a_find id (a_entries a) = Some {| a_info := i; a_ready := false |}.
+  Proof.
+    intros id i H. apply mget_in in H. apply rel_staging_entry in H. destruct H as [H1 H2].
+    apply a_find_in; [apply (ai_ids _ HA) | exact H1 | exact H2].
+  Qed.
+
+  Lemma rel_entry_cases : forall e, In e (a_entries a) ->
+    (a_ready e = false /\ mget (a_id e) (staging c) = Some (a_info e)) \/
+    (a_ready e = true /\ mget (a_id e) (services c) = Some (a_info e)).
+  Proof.
+    intros e He. apply (r_in _ _ HR) in He. apply in_abs in He.
+    destruct He as [[[k i] [Hp ->]]|[[k i] [Hp ->]]]; [left|right]; (split; [reflexivity|]).
+    - destruct (rel_staging_entry _ _ Hp) as [_ Hk]. unfold a_id; simpl. rewrite Hk.
+      apply in_mget; [apply (r_nd_s _ _ HR) | exact Hp].
+    - destruct (rel_services_entry _ _ Hp) as [_ Hk]. unfold a_id; simpl. rewrite Hk.
+      apply in_mget; [apply (r_nd_v _ _ HR) | exact Hp].
+  Qed.
+
+  Lemma rel_find_none : forall id, mget id (services c) = None -> mget id (staging c) = None ->
+    a_find id (a_entries a) = None.
+  Proof.
+    intros id H1 H2. destruct (a_find id (a_entries a)) as [e|] eqn:F; [|reflexivity].
+    apply a_find_some in F. destruct F as [He Hid]. apply rel_entry_cases in He. subst id.
+    destruct He as [[_ H]|[_ H]]; congruence.
+  Qed.
+
+  Lemma rel_staging_not_services : forall id i, mget id (staging c) = Some i -> mget id (services c) = None.
+  Proof.
+    intros id i H. destruct (mget id (services c)) as [j|] eqn:G; [|reflexivity].
+    apply mget_in in H. apply mget_in in G. exfalso.
+    eapply (r_disj _ _ HR id); apply in_map_iff; [exists (id, i) | exists (id, j)]; auto.
+  Qed.
+
+  Lemma rel_has_name : forall n,
+    has_name n (staging c) || has_name n (services c) = a_has_name n (a_entries a).
+  Proof.
+    intros n. apply eq_true_iff_eq. rewrite orb_true_iff, !has_name_spec, a_has_name_spec. split.
+    - intros [[[k i] [H1 H2]]|[[k i] [H1 H2]]].
+      + exists (stag (k, i)). split; [apply rel_staging_entry; exact H1 | exact H2].
+      + exists (rdy (k, i)). split; [apply rel_services_entry; exact H1 | exact H2].
+    - intros [e [H1 H2]]. apply (r_in _ _ HR) in H1. apply in_abs in H1.
+      destruct H1 as [[p [Hp ->]]|[p [Hp ->]]]; [left|right]; exists p; auto.
+  Qed.
+
+  Lemma rel_find_name : forall n,
+    match find_name n (services c), find (fun e => a_ready e && String.eqb (a_name e) n) (a_entries a) with
+    | Some (_, i), Some e => a_info e = i
+    | None, None => True
+    | _, _ => False
+    end.
+  Proof.
+    intros n. unfold find_name.
+    destruct (find (fun p => String.eqb (i_name (snd p)) n) (services c)) as [[k i]|] eqn:F1;
+    destruct (find (fun e => a_ready e && String.eqb (a_name e) n) (a_entries a)) as [e|] eqn:F2; auto.
+    - apply find_some in F1. destruct F1 as [H1 H2]. simpl in H2. apply String.eqb_eq in H2.
+      apply find_some in F2. destruct F2 as [H3 H4]. apply andb_true_iff in H4. destruct H4 as [H4 H5].
+      apply String.eqb_eq in H5.
+      destruct (rel_services_entry _ _ H1) as [H6 _].
+      assert (e = rdy (k, i)).
+      { eapply NoDup_map_inj_in; [apply (ai_names _ HA) | exact H3 | exact H6 |]. unfold a_name at 2; simpl. congruence. }
+      subst e. reflexivity.
+    - apply find_some in F1. destruct F1 as [H1 H2]. simpl in H2. apply String.eqb_eq in H2.
+      destruct (rel_services_entry _ _ H1) as [H6 _].
+      eapply find_none in F2; [|exact H6]. simpl in F2. unfold a_name in F2; simpl in F2.
+      apply String.eqb_neq in F2. congruence.
+    - apply find_some in F2. destruct F2 as [H3 H4]. apply andb_true_iff in H4. destruct H4 as [H4 H5].
+      apply String.eqb_eq in H5. apply (r_in _ _ HR) in H3. apply in_abs in H3.
+      destruct H3 as [[p [Hp ->]]|[p [Hp ->]]]; [simpl in H4; discriminate|].
+      eapply find_none in F1; [|exact Hp]. simpl in F1. apply String.eqb_neq in F1. unfold a_name in H5; simpl in H5. congruence.
+  Qed.
+
+  Lemma rel_services_list :
+    isort (map snd (services c)) = isort (map a_info (filter a_ready (a_entries a))).
+  Proof.
+    assert (Hids : map i_id (map snd (services c)) = map fst (services c)).
+    { rewrite map_map. apply map_ext_in. intros p Hp.
+      pose proof (r_keys_v _ _ HR) as K. unfold keys_ok in K. rewrite Forall_forall in K. apply K; exact Hp. }
+    apply isort_unique.
+    - rewrite Hids. apply (r_nd_v _ _ HR).
+    - apply NoDup_Permutation.
+      + eapply NoDup_map_inv. rewrite Hids. apply (r_nd_v _ _ HR).
+      + eapply NoDup_map_inv with (f := i_id). rewrite map_map.
+        change (fun x => i_id (a_info x)) with a_id. apply NoDup_map_filter. apply (ai_ids _ HA).
+      + intros i. rewrite !in_map_iff. split.
+        * intros [[k j] [<- Hp]]. simpl. exists (rdy (k, j)). split; [reflexivity|].
+          apply filter_In. split; [apply rel_services_entry; exact Hp | reflexivity].
+        * intros [e [<- He]]. apply filter_In in He. destruct He as [He Hr].
+          apply (r_in _ _ HR) in He. apply in_abs in He.
+          destruct He as [[p [Hp ->]]|[p [Hp ->]]]; [simpl in Hr; discriminate|].
+          exists p. split; [reflexivity | exact Hp].
+  Qed.
+End Refine.
+
+
+
+Lemma mdel_absent : forall k (m : cmap), ~ In k (map fst m) -> mdel k m = m.
+Proof.
+  intros k m; induction m as [|[k' v'] m IH]; simpl; intros H; [reflexivity|].
+  destruct (k' =? k) eqn:E; [apply N.eqb_eq in E; subst; tauto|]. simpl. rewrite IH; tauto.
+Qed.
+
+Lemma rel_key_bound : forall c a, Rel c a -> AInv a -> forall k,
+  In k (map fst (staging c)) \/ In k (map fst (services c)) -> 1 <= k <= lastID c.
+Proof.
+  intros c a HR HA k H. rewrite <- (r_next _ _ HR).
+  pose proof (ai_bound _ HA) as Hb. rewrite Forall_forall in Hb.
+  destruct H as [H|H]; apply in_map_iff in H; destruct H as [[k' i] [<- Hp]]; simpl.
+  - destruct (rel_staging_entry c a HR _ _ Hp) as [H1 H2]. apply Hb in H1. unfold a_id in H1; simpl in H1. lia.
+  - destruct (rel_services_entry c a HR _ _ Hp) as [H1 H2]. apply Hb in H1. unfold a_id in H1; simpl in H1. lia.
+Qed.
+
+(* entries after deleting identifier id from both maps *)
+Lemma abs_del : forall c a id, Rel c a -> forall e,
+  In e (abs_entries {| staging := mdel id (staging c); services := mdel id (services c); lastID := lastID c |}) <->
+  In e (abs_entries c) /\ a_id e <> id.
+Proof.
+  intros c a id HR e. rewrite !in_abs. simpl.
+  pose proof (r_keys_s _ _ HR) as Ks. pose proof (r_keys_v _ _ HR) as Kv.
+  unfold keys_ok in *. rewrite Forall_forall in Ks, Kv. split.
+  - intros [[p [Hp ->]]|[p [Hp ->]]]; apply mdel_in in Hp; destruct Hp as [Hp Hne].
+    + split; [left; exists p; auto|]. unfold a_id; simpl. rewrite (Ks _ Hp). exact Hne.
+    + split; [right; exists p; auto|]. unfold a_id; simpl. rewrite (Kv _ Hp). exact Hne.
+  - intros [[[p [Hp ->]]|[p [Hp ->]]] Hne]; unfold a_id in Hne; simpl in Hne.
+    + left. exists p. split; auto. apply mdel_in. split; auto. rewrite <- (Ks _ Hp). exact Hne.
+    + right. exists p. split; auto. apply mdel_in. split; auto. rewrite <- (Kv _ Hp). exact Hne.
+Qed.
+
+Lemma keys_ok_mdel : forall k m, keys_ok m -> keys_ok (mdel k m).
+Proof.
+  intros k m H. unfold keys_ok in *. rewrite Forall_forall in *. intros p Hp. apply mdel_in in Hp. apply H; tauto.
+Qed.
+
+Lemma cstep_eta : forall g c o, cstep g c o = (fst (fst (cstep g c o)), snd (fst (cstep g c o)), snd (cstep g c o)).
+Proof. intros. destruct (cstep g c o) as [[? ?] ?]. reflexivity. Qed.
+
+(* The transliterated implementation refines the abstract registry: step by step, same
+   result and same signals, related states. *)
+Theorem refine_step : forall g c a o, cfg_wrap g = false -> Rel c a -> AInv a ->
+  forall c' rc evc a' ra eva, cstep g c o = (c', rc, evc) -> astep a o = (a', ra, eva) ->
+  Rel c' a' /\ rc = ra /\ evc = eva.
+Proof.
+  intros g c a o Hw HR HA c' rc evc a' ra eva Hc Ha.
+  pose proof (r_next _ _ HR) as Hnext.
+  destruct o.
+  - (* registerService: refinement *)
+    simpl in Hc, Ha. unfold c_register, reg_check, reg_commit in Hc. rewrite Hw in Hc. simpl in Hc.
+    rewrite <- (rel_has_name c a HR) in Ha. rewrite Hnext in Ha.
+    destruct (valid_info i); simpl in Hc, Ha; [|inversion Hc; inversion Ha; subst; auto].
+    destruct (has_name (i_name i) (staging c)); simpl in Hc, Ha; [inversion Hc; inversion Ha; subst; auto|].
+    destruct (has_name (i_name i) (services c)); simpl in Hc, Ha; [inversion Hc; inversion Ha; subst; auto|].
+    destruct (W32 <=? lastID c + 1) eqn:L.
+    + apply N.leb_le in L. assert (L' : (lastID c + 1 <? W32) = false) by (apply N.ltb_ge; exact L).
+      rewrite L' in Ha. inversion Hc; inversion Ha; subst; auto.
+    + apply N.leb_gt in L. assert (L' : (lastID c + 1 <? W32) = true) by (apply N.ltb_lt; exact L).
+      rewrite L' in Ha. rewrite (N.mod_small _ _ L) in Hc. inversion Hc; inversion Ha; subst. clear Hc Ha.
+      split; [|auto].
+      assert (Hfresh_s : ~ In (lastID c + 1) (map fst (staging c))).
+      { intros Hin. pose proof (rel_key_bound c a HR HA _ (or_introl Hin)). lia. }
+      assert (Hfresh_v : ~ In (lastID c + 1) (map fst (services c))).
+      { intros Hin. pose proof (rel_key_bound c a HR HA _ (or_intror Hin)). lia. }
+      assert (Hset : mset (lastID c + 1) (with_id i (lastID c + 1)) (staging c) =
+                     staging c ++ [(lastID c + 1, with_id i (lastID c + 1))]).
+      { apply mset_fresh. destruct (mget (lastID c + 1) (staging c)) eqn:G; [|reflexivity].
+        apply mget_in in G. exfalso; apply Hfresh_s. apply in_map_iff. eexists; split; [|exact G]; reflexivity. }
+      rewrite Hset. constructor; simpl.
+      * rewrite map_app. simpl. apply NoDup_snoc; [apply (r_nd_s _ _ HR) | exact Hfresh_s].
+      * apply (r_nd_v _ _ HR).
+      * intros k Hk. rewrite map_app in Hk. apply in_app_or in Hk. destruct Hk as [Hk|[<-|[]]]; [apply (r_disj _ _ HR); exact Hk | exact Hfresh_v].
+      * unfold keys_ok. apply Forall_app. split; [apply (r_keys_s _ _ HR) | constructor; [reflexivity | constructor]].
+      * apply (r_keys_v _ _ HR).
+      * intros e. rewrite abs_entries_eq. simpl. rewrite map_app, !in_app_iff. simpl.
+        rewrite (r_in _ _ HR e), abs_entries_eq, in_app_iff. unfold new_entry, stag. simpl. tauto.
+      * reflexivity.
+  - (* unregisterService: refinement *)
+    simpl in Hc. unfold c_unregister in Hc. apply astep_unregister in Ha.
+    destruct (mget id (services c)) as [i|] eqn:Gv.
+    + pose proof (rel_find_services c a HR HA _ _ Gv) as F.
+      destruct Ha as [[e [F' [-> [-> ->]]]]|[F' _]]; [|congruence].
+      rewrite F in F'. inversion F'; subst e. inversion Hc; subst. clear Hc. simpl.
+      split; [|auto].
+      assert (Hns : ~ In id (map fst (staging c))).
+      { intros Hin. apply (r_disj _ _ HR _ Hin). apply mget_in in Gv. apply in_map_iff. exists (id, i); auto. }
+      constructor; simpl.
+      * apply (r_nd_s _ _ HR).
+      * apply mdel_nodup. apply (r_nd_v _ _ HR).
+      * intros k Hk Hk'. apply mdel_keys in Hk'. eapply (r_disj _ _ HR); [exact Hk | tauto].
+      * apply (r_keys_s _ _ HR).
+      * apply keys_ok_mdel. apply (r_keys_v _ _ HR).
+      * intros e. rewrite a_del_in, (r_in _ _ HR e). rewrite <- (abs_del c a id HR e).
+        rewrite (mdel_absent _ _ Hns). tauto.
+      * exact Hnext.
+    + destruct (mget id (staging c)) as [i|] eqn:Gs.
+      * pose proof (rel_find_staging c a HR HA _ _ Gs) as F.
+        destruct Ha as [[e [F' [-> [-> ->]]]]|[F' _]]; [|congruence].
+        rewrite F in F'. inversion F'; subst e. inversion Hc; subst. clear Hc. simpl.
+        split; [|auto].
+        assert (Hnv : ~ In id (map fst (services c))) by (apply mget_none; exact Gv).
+        constructor; simpl.
+        -- apply mdel_nodup. apply (r_nd_s _ _ HR).
+        -- apply (r_nd_v _ _ HR).
+        -- intros k Hk. apply mdel_keys in Hk. apply (r_disj _ _ HR). tauto.
+        -- apply keys_ok_mdel. apply (r_keys_s _ _ HR).
+        -- apply (r_keys_v _ _ HR).
+        -- intros e. rewrite a_del_in, (r_in _ _ HR e). rewrite <- (abs_del c a id HR e).
+           rewrite (mdel_absent _ _ Hnv). tauto.
+        -- exact Hnext.
+      * pose proof (rel_find_none c a HR id Gv Gs) as F.
+        destruct Ha as [[e [F' _]]|[_ [-> [-> ->]]]]; [congruence|].
+        inversion Hc; subst. auto.
+  - (* serviceReady: refinement *)
+    simpl in Hc. unfold c_ready in Hc. apply astep_ready in Ha.
+    destruct (mget id (staging c)) as [i|] eqn:Gs.
+    + pose proof (rel_find_staging c a HR HA _ _ Gs) as F.
+      destruct Ha as [[e [F' [Rd [-> [-> ->]]]]]|[[F'|[e [F' Rd]]] _]]; try congruence;
+        [|rewrite F in F'; inversion F'; subst e; discriminate].
+      rewrite F in F'. inversion F'; subst e. inversion Hc; subst. clear Hc. simpl.
+      split; [|auto].
+      pose proof (rel_staging_not_services c a HR _ _ Gs) as Gv.
+      assert (Hnv : ~ In id (map fst (services c))) by (apply mget_none; exact Gv).
+      rewrite (mset_fresh _ _ _ Gv).
+      assert (Hid : i_id i = id) by (apply mget_in in Gs; apply (rel_staging_entry c a HR _ _ Gs)).
+      constructor; simpl.
+      * apply mdel_nodup. apply (r_nd_s _ _ HR).
+      * rewrite map_app. simpl. apply NoDup_snoc; [apply (r_nd_v _ _ HR) | exact Hnv].
+      * intros k Hk Hk'. apply mdel_keys in Hk. destruct Hk as [Hk Hne]. rewrite map_app in Hk'.
+        apply in_app_or in Hk'. destruct Hk' as [Hk'|[Hk'|[]]]; [eapply (r_disj _ _ HR); eauto | simpl in Hk'; congruence].
+      * apply keys_ok_mdel. apply (r_keys_s _ _ HR).
+      * unfold keys_ok. apply Forall_app. split; [apply (r_keys_v _ _ HR) | constructor; [exact Hid | constructor]].
+      * intros e. rewrite in_app_iff, a_del_in, (r_in _ _ HR e). rewrite <- (abs_del c a id HR e).
+        rewrite (mdel_absent _ _ Hnv). rewrite !abs_entries_eq. simpl. rewrite map_app, !in_app_iff. simpl.
+        unfold rdy at 2. simpl. tauto.
+      * exact Hnext.
+    + destruct Ha as [[e [F' [Rd _]]]|[_ [-> [-> ->]]]].
+      * exfalso. apply a_find_some in F'. destruct F' as [He Hid].
+        destruct (rel_entry_cases c a HR e He) as [[_ G]|[Rd' _]]; congruence.
+      * inversion Hc; subst. auto.
+  - (* updateServiceInfo: refinement *)
+    simpl in Hc. unfold c_update in Hc. simpl in Ha.
+    destruct (valid_info i) eqn:V; [|inversion Hc; inversion Ha; subst; auto].
+    destruct (mget (i_id i) (services c)) as [old|] eqn:Gv.
+    + rewrite (rel_find_services c a HR HA _ _ Gv) in Ha. unfold a_name in Ha. cbn [a_ready a_info andb] in Ha.
+      destruct (String.eqb (i_name old) (i_name i)) eqn:Nm; [|inversion Hc; inversion Ha; subst; auto].
+      inversion Hc; inversion Ha; subst. clear Hc Ha. split; [|auto].
+      destruct (mset_present (i_id i) i (services c) old (r_nd_v _ _ HR) Gv) as [Hk Hin].
+      constructor; simpl.
+      * apply (r_nd_s _ _ HR).
+      * rewrite Hk. apply (r_nd_v _ _ HR).
+      * rewrite Hk. apply (r_disj _ _ HR).
+      * apply (r_keys_s _ _ HR).
+      * unfold keys_ok. apply Forall_forall. intros p Hp. apply Hin in Hp.
+        destruct Hp as [->|[Hp _]]; [reflexivity|].
+        pose proof (r_keys_v _ _ HR) as K. unfold keys_ok in K. rewrite Forall_forall in K. apply K; exact Hp.
+      * intros x. rewrite in_app_iff, a_del_in, (r_in _ _ HR x). simpl.
+        rewrite !in_abs. simpl.
+        pose proof (r_keys_s _ _ HR) as Ks. pose proof (r_keys_v _ _ HR) as Kv.
+        unfold keys_ok in Ks, Kv. rewrite Forall_forall in Ks, Kv.
+        assert (Hns : ~ In (i_id i) (map fst (staging c))).
+        { intros Hc'. apply (r_disj _ _ HR _ Hc'). apply mget_in in Gv. apply in_map_iff. exists (i_id i, old); auto. }
+        split.
+        -- intros [[[[p [Hp ->]]|[p [Hp ->]]] Hne]|[<-|[]]].
+           ++ left. exists p; auto.
+           ++ right. exists p. split; auto. apply Hin. right. split; auto.
+              unfold a_id in Hne; simpl in Hne. rewrite <- (Kv _ Hp). exact Hne.
+           ++ right. exists (i_id i, i). split; [apply Hin; left; reflexivity | reflexivity].
+        -- intros [[p [Hp ->]]|[p [Hp ->]]].
+           ++ left. split; [left; exists p; auto|]. unfold a_id; simpl. rewrite (Ks _ Hp).
+              intros Hc'. apply Hns. rewrite <- Hc'. apply in_map; exact Hp.
+           ++ apply Hin in Hp. destruct Hp as [->|[Hp Hne]].
+              ** right. left. reflexivity.
+              ** left. split; [right; exists p; auto|]. unfold a_id; simpl. rewrite (Kv _ Hp). exact Hne.
+      * exact Hnext.
+    + destruct (a_find (i_id i) (a_entries a)) as [e|] eqn:F; [|inversion Hc; inversion Ha; subst; auto].
+      assert (Rd : a_ready e = false).
+      { apply a_find_some in F. destruct F as [He Hid].
+        destruct (rel_entry_cases c a HR e He) as [[Rd' _]|[_ G]]; [exact Rd' | congruence]. }
+      rewrite Rd in Ha. simpl in Ha. inversion Hc; inversion Ha; subst; auto.
+  - (* service: refinement *)
+    simpl in Hc, Ha. unfold c_service in Hc. pose proof (rel_find_name c a HR HA n) as Hf.
+    destruct (find_name n (services c)) as [[k i]|]; destruct (find _ (a_entries a)) as [e|]; try tauto.
+    + inversion Hc; inversion Ha; subst. auto.
+    + inversion Hc; inversion Ha; subst. auto.
+  - (* services: refinement *)
+    simpl in Hc, Ha. unfold c_services in Hc. inversion Hc; inversion Ha; subst.
+    rewrite (rel_services_list _ _ HR HA). auto.
+  - simpl in Hc, Ha. inversion Hc; inversion Ha; subst. auto.
+  - simpl in Hc, Ha. inversion Hc; inversion Ha; subst. auto.
+  - (* Resolve: refinement *)
+    simpl in Hc, Ha. unfold c_resolve in Hc. pose proof (rel_find_name c a HR HA n) as Hf.
+    destruct (find_name n (services c)) as [[k i]|]; destruct (find _ (a_entries a)) as [e|]; try tauto.
+    + inversion Hc; inversion Ha; subst. unfold a_id. auto.
+    + inversion Hc; inversion Ha; subst. auto.
+Qed.
